@@ -79,6 +79,9 @@ impl core::ops::Add<Duration> for Instant {
     fn add(self, rhs: Duration) -> (r: Instant) { Instant { t: self.t + rhs.nanos } }
 }
 impl Instant {
+    /// Ord::min / Ord::max on instants (inherent here: the shim has no Ord impl)
+    pub fn min(self, other: Instant) -> (r: Instant) ensures r.t == (if self.t <= other.t { self.t } else { other.t }) { if self.t <= other.t { self } else { other } }
+    pub fn max(self, other: Instant) -> (r: Instant) ensures r.t == (if self.t >= other.t { self.t } else { other.t }) { if self.t >= other.t { self } else { other } }
     pub fn duration_since(&self, earlier: Instant) -> (r: Duration)
         ensures r.nanos == (if self.t >= earlier.t { self.t - earlier.t } else { 0 })
     { if self.t >= earlier.t { Duration { nanos: self.t - earlier.t } } else { Duration { nanos: 0 } } }
